@@ -1,6 +1,8 @@
 """C04 — every mutation has exactly its documented effect and no other."""
 from __future__ import annotations
 
+import json
+
 import core
 import histories as H
 from props import _hist
@@ -8,8 +10,12 @@ from props.c01 import LABELS, PROFILES
 
 LEVEL = "proof"
 TRUSTED = [
-    "the executable specification is the Lean model (lean/Nutree/Model/Ops.lean) with its effect/frame theorems; the shortcuts are specified in the harness "
-    "(append_child = add(before=None), prepend_child = add(before=first child), prepend_sibling(n) = parent.add(before=n), append_sibling(n) = parent.add(before=next sibling))",
+    "the executable specification is the Lean model (lean/Nutree/Model/Ops.lean, World.lean) with its effect/frame theorems; the shortcuts "
+    "(append_child / prepend_child / prepend_sibling / append_sibling), `del tree[key]`, set_meta / clear_meta / update_meta, Tree.clear() and Tree.sort() are "
+    "operations of the model (Op.addVia, delItem, metaSet, metaClear, metaUpdate, clear, sortTree); that each equals the documented call of the general "
+    "entry point is proved in lean/Nutree/Properties/C04Shortcuts.lean",
+    "`del tree[key]`: the node_id lookup of `Tree.__getitem__` for int keys is not modelled (node ids are `id(node)`, never a small int); the hash of a str "
+    "that is no pool object is assumed not to be a data_id in use",
 ]
 ASSUMPTIONS = []
 
@@ -19,6 +25,65 @@ def judge(s, r):
     if s.problems and (s.impl_res == "ok" or s.model_res == "ok"):
         out.append(("effect", s.problems[0], None))
     return out
+
+
+# fixed histories (tree 0): corner cases of `del tree[key]` that the generators do not reach
+FIXED = [
+    # hash(-1) == -2: the int key -1 is no data_id in use, so it is looked up as a data object and finds the node registered under -2
+    [{"op": "w.add", "t": 0, "p": [], "a": 0, "did": -2}, {"op": "w.add", "t": 0, "p": [0], "a": 1}, {"op": "w.del", "t": 0, "did": -1}],
+    # ... but an id in use wins over the meaning as data object
+    [{"op": "w.add", "t": 0, "p": [], "a": 0, "did": -2}, {"op": "w.add", "t": 0, "p": [], "a": 1, "did": -1}, {"op": "w.del", "t": 0, "did": -1}],
+    # the pool int 7 (data object 12) used as id of other data: `del tree[7]` takes it as data_id first
+    [{"op": "w.add", "t": 0, "p": [], "a": 12}, {"op": "w.del", "t": 0, "a": 12}],
+    [{"op": "w.add", "t": 0, "p": [], "a": 0, "did": 7}, {"op": "w.add", "t": 0, "p": [0], "a": 12}, {"op": "w.del", "t": 0, "a": 12}],
+    [{"op": "w.add", "t": 0, "p": [], "a": 0, "did": 7}, {"op": "w.add", "t": 0, "p": [0], "a": 1, "did": 7}, {"op": "w.del", "t": 0, "did": 7}],
+    # a string that is a data object of one node and the explicit id of another one
+    [{"op": "w.add", "t": 0, "p": [], "a": 0}, {"op": "w.add", "t": 0, "p": [], "a": 1, "did": "A"}, {"op": "w.del", "t": 0, "a": 0}],
+    # falsy keys
+    [{"op": "w.add", "t": 0, "p": [], "a": 29}, {"op": "w.add", "t": 0, "p": [], "a": 30}, {"op": "w.del", "t": 0, "a": 29}, {"op": "w.del", "t": 0, "a": 30}],
+    [{"op": "w.add", "t": 0, "p": [], "a": 0, "did": 0}, {"op": "w.add", "t": 0, "p": [], "a": 1, "did": ""}, {"op": "w.del", "t": 0, "did": ""}, {"op": "w.del", "t": 0, "did": 0}],
+    # the default id of an object as explicit key; equal-but-distinct objects
+    [{"op": "w.add", "t": 0, "p": [], "a": 18}, {"op": "w.add", "t": 0, "p": [0], "a": 19}, {"op": "w.del", "t": 0, "hash_of": 18}],
+    [{"op": "w.add", "t": 0, "p": [], "a": 18}, {"op": "w.del", "t": 0, "a": 19}],
+    [{"op": "w.add", "t": 0, "p": [], "a": 27}, {"op": "w.add", "t": 0, "p": [0], "a": 28}, {"op": "w.del", "t": 0, "hash_of": 28}, {"op": "w.del", "t": 0, "a": 27}],
+    # a key for which the id callback raises (object 3 under the hook of `fixed_histories`), also when it is an id in use
+    [{"op": "w.add", "t": 0, "p": [], "a": 0}, {"op": "w.del", "t": 0, "a": 3}, {"op": "w.add", "t": 0, "p": [], "a": 1, "did": "D"}, {"op": "w.del", "t": 0, "a": 3}],
+    # kinds (typed trees; plain trees ignore `kind`): the sibling shortcuts look at the neighbour of ANY kind and give the new
+    # node the kind of the node they are called on; prepend_child goes before the first child of any kind
+    [{"op": "w.add", "t": 0, "p": [], "a": 0, "kind": "a"}, {"op": "w.add", "t": 0, "p": [], "a": 1, "kind": "b"}, {"op": "w.add", "t": 0, "p": [], "a": 2, "kind": "a"},
+     {"op": "w.add", "t": 0, "p": [], "ref": [0], "a": 9, "via": "append_sibling", "kind": "b"},
+     {"op": "w.add", "t": 0, "p": [], "ref": [2], "a": 4, "via": "prepend_sibling", "kind": "a"},
+     {"op": "w.add", "t": 0, "p": [], "a": 6, "via": "prepend_child", "kind": "b"},
+     {"op": "w.add", "t": 0, "p": [], "ref": [5], "a": 7, "via": "append_sibling"},
+     {"op": "w.add", "t": 0, "p": [], "a": 8, "via": "append_child", "kind": "b"}],
+    [{"op": "w.add", "t": 0, "p": [], "a": 0, "kind": "a"}, {"op": "w.add", "t": 0, "p": [0], "a": 1, "kind": "b"}, {"op": "w.add", "t": 0, "p": [0], "a": 2, "kind": "a"},
+     {"op": "w.add", "t": 0, "p": [0], "a": 9, "kind": "b"},
+     {"op": "w.add", "t": 0, "p": [0], "ref": [0, 0], "a": 4, "via": "append_sibling"},
+     {"op": "w.add", "t": 0, "p": [0], "ref": [0, 2], "a": 6, "via": "prepend_sibling"},
+     {"op": "w.add", "t": 0, "p": [0], "a": 7, "via": "prepend_child", "kind": "a"},
+     {"op": "w.add", "t": 0, "p": [0], "ref": [0, 1], "a": 1, "via": "append_sibling"}],
+    # a node with children and a clone elsewhere: only the designated node goes, with its branch
+    [{"op": "w.add", "t": 0, "p": [], "a": 0}, {"op": "w.add", "t": 0, "p": [0], "a": 1}, {"op": "w.add", "t": 0, "p": [0, 0], "a": 2},
+     {"op": "w.add", "t": 0, "p": [], "a": 2}, {"op": "w.del", "t": 0, "a": 1}, {"op": "w.del", "t": 0, "a": 2}, {"op": "w.del", "t": 0, "a": 2}],
+]
+
+
+def fixed_histories(ctx, out):
+    for typed in (False, True):
+        for hook in (None, [[0, "k0"], [3, None], [12, 7]]):
+            cfg = dict(typed=typed, hook=hook, trees=2)
+            for log in FIXED:
+                fails, steps = _hist.run_log(ctx, cfg, log, judge)
+                out.evaluations += len(steps)
+                for s in steps:
+                    out.dist["op:" + s.op["op"] + (":" + s.op["via"] if s.op.get("via") else "")] += 1
+                    out.dist["res:" + s.impl_res] += 1
+                out.keys.add(core.hash_str(json.dumps([typed, hook, log], sort_keys=True)))
+                if fails:
+                    i, (tag, text, finding) = fails[0]
+                    out.fail(dict(cfg=_hist.pub(cfg), log=log[: i + 1]), f"[{tag}] fixed history, op {log[i]}: {text}", step=steps[-1].as_dict(), finding=finding)
+                elif steps and steps[-1].problems:
+                    out.disagree(dict(cfg=_hist.pub(cfg), log=log), f"fixed history {log}: {steps[-1].problems[:2]}", step=steps[-1].as_dict())
 
 
 def run(ctx):
@@ -33,8 +98,12 @@ def run(ctx):
     for typed in (False, True):
         _hist.exhaustive_single_ops(ctx, out, judge, max_nodes=n if not typed else n - 1, alphabet=[0, 1, 6], typed=typed,
                                     ops_of=lambda impl, ti: _hist.all_single_ops(impl, ti, labels=[0, 6, 2]), label_limit=6 if ctx.thorough else 2)
+    fixed_histories(ctx, out)
+    del_prof = dict(name="del", typed=False, malformed=0.1, hook=[[0, "k0"], [1, "k1"], [2, None], [18, "item"], [19, "item"]],
+                    ops=["add", "add", "add", "shortcut", "addnode", "del", "del", "del", "setdata", "move"], did_rate=0.3)
+    del_typed = dict(name="del-typed", typed=True, malformed=0.1, ops=["add", "add", "add", "shortcut", "shortcut", "addnode", "del", "del", "setdata"], did_rate=0.3)
     meta_prof = dict(name="meta-sort", typed=False, malformed=0.05, ops=["add", "add", "meta", "meta", "meta", "sort", "sort", "move", "remove"])
-    _hist.history_campaign(ctx, out, judge, n_hist=1500 if ctx.thorough else 150, n_steps=120 if ctx.thorough else 25, profiles=PROFILES + [meta_prof], labels_sets=LABELS)
+    _hist.history_campaign(ctx, out, judge, n_hist=1500 if ctx.thorough else 150, n_steps=120 if ctx.thorough else 25, profiles=PROFILES + [meta_prof, del_prof, del_typed], labels_sets=LABELS)
     return out
 
 
